@@ -9,6 +9,7 @@ func init() {
 	vpRegister("c11_step", vpH_c11_step)
 	vpRegister("c11_tuple", vpH_c11_tuple)
 	vpRegister("c11_skip", vpH_c11_skip)
+	vpRegister("c11_frame", vpH_c11_frame)
 }
 
 // vpTuple is a dimension->value tuple kept as parallel lists (the oracle never
@@ -286,4 +287,27 @@ func vpH_c11_skip() {
 	m2 := &Matrix{Setup: MatrixSetup{"a": {"x"}}, Adjustments: MatrixAdjustments{adj}}
 	err2 := m2.validatePermutation(MatrixPermutation{"a": "x"})
 	vpAssert((err2 == nil) == !want, "a setup combination is accepted exactly when no adjustment with that tuple skips")
+}
+
+// Validation is a pure question: whatever the verdict, the matrix is left as
+// it was (value lists in their order, also when their backing arrays have
+// spare capacity), and asking again gives the same verdict.
+func vpH_c11_frame() {
+	v1, v2, v3 := vpStr(1, "a-c"), vpStr(1, "a-c"), vpStr(1, "a-c")
+	vals := make([]string, 0, 4) // spare capacity, as lists built with append have
+	vals = append(vals, v1, v2)
+	m := &Matrix{Setup: MatrixSetup{"os": vals, "arch": {"x"}}}
+	if vpBool() {
+		m.Adjustments = MatrixAdjustments{{With: MatrixAdjustmentWith{"os": v3, "arch": "y"}, Skip: vpBool()}}
+	}
+	p := MatrixPermutation{"os": vpStr(1, "a-c"), "arch": vpStr(1, "x-y")}
+	err1 := m.validatePermutation(p)
+	os := m.Setup["os"]
+	vpAssert(len(m.Setup) == 2 && len(os) == 2 && os[0] == v1 && os[1] == v2 && len(m.Setup["arch"]) == 1 && m.Setup["arch"][0] == "x", "validation leaves the setup lists as they were (content and order), whatever the verdict")
+	vpAssert(len(vals) == 2 && vals[:4][2] == "" && vals[:4][3] == "", "validation does not write into the spare capacity of a setup list")
+	if len(m.Adjustments) == 1 {
+		vpAssert(len(m.Adjustments[0].With) == 2 && m.Adjustments[0].With["os"] == v3 && m.Adjustments[0].With["arch"] == "y", "validation leaves the adjustments as they were")
+	}
+	err2 := m.validatePermutation(p)
+	vpAssert((err1 == nil) == (err2 == nil), "asking again gives the same verdict")
 }
